@@ -19,7 +19,8 @@ INFO = {
                    'after mutating every produced record in place. Identifier clause: for EVERY Unicode table name (fixed length per shard, no line feed) the fake '
                    'connection has recorded exactly [] + IO error, or exactly ["SELECT * FROM <name>;"] when the name is made of [A-Za-z0-9_] only.',
     'bounds': 'tables as in C01-C05 quick shapes; table names of length 0..4 (quick) / 0..5 (thorough), any Unicode except LF (cleanup_query cannot produce one; '
-              're `$` also matches before a final LF -- stated, outside)',
+              're `$` also matches before a final LF -- stated, outside)'
+        '; odd sources: 3-row tables whose rows are tuples, or lists holding a list-valued cell, under 24 query shapes (row identity, row types and deep values compared)',
     'outside': 'pandas dataframes, sqlite files, CSV files on disk, rbql-js arrays (C extensions / OS / no JS engine): not claimed',
     'assumptions': ['a fake DB-API connection stands for sqlite3 (only cursor()/execute()/description/fetchone() are used by the adapter)'],
     'trusted': ['crosshair-tool 0.0.110', 'z3', 'CPython 3.12.1'],
